@@ -62,9 +62,7 @@ theorem feedFold_inv : ∀ (chunks : List (List Byte)) (s : Option Parser × Lis
 
 /-- `feed` over any chunking of a non-empty input -/
 theorem feed_spec (chunks : List (List Byte)) (hne : ∀ c ∈ chunks, c ≠ []) (hbs : chunks.flatten ≠ [])
-    (hg : Good {} chunks.flatten) (hb : ∀ c ∈ chunks.flatten, c ≠ BSL)
-    (hlast : (runSc {} chunks.flatten).pend = true → (runSc {} chunks.flatten).empty = false →
-      (runSc {} chunks.flatten).sp = false) :
+    (hg : Good {} chunks.flatten) (hb : ∀ c ∈ chunks.flatten, c ≠ BSL) :
     feed chunks = finish (runA {} chunks.flatten) (runA {} chunks.flatten).ins := by
   have hinv := feedFold_inv chunks (none, []) [] (Or.inl ⟨rfl, rfl⟩) hne hg hb
   rw [List.nil_append] at hinv
@@ -76,6 +74,6 @@ theorem feed_spec (chunks : List (List Byte)) (hne : ∀ c ∈ chunks, c ≠ [])
     unfold feedEnd
     rw [hq, hins]
     dsimp only
-    exact last_spec q _ hpost hnl (by rw [runA_sc]; exact hlast) _
+    exact last_spec q _ hpost _
 
 end Echse.Ical
